@@ -137,8 +137,18 @@ def errclass(e):
     return type(e).__name__
 
 
+_REF_CACHE = {}
+
+
 def reference(spec):
     """Formatter outcome of every object of a fresh problem (the `Problem` of the model) and its counts."""
+    key = chash(spec)
+    if key not in _REF_CACHE:
+        _REF_CACHE[key] = _reference(spec)
+    return json.loads(json.dumps(_REF_CACHE[key]))
+
+
+def _reference(spec):
     scratch = tempfile.mkdtemp(prefix="c15ref_")
     try:
         p = build_problem(spec, scratch)
@@ -569,7 +579,7 @@ def shrink_item(drv, item, fails):
         attempt({"spec": best["spec"], "scenario": dict(sc, dest={"k": "file", "lines": ["x"]})})
     sc = best["scenario"]
     if sc["fault"]["k"] in ("format", "write") and sc["fault"]["i"] > 0:
-        for k in range(0, sc["fault"]["i"]):
+        for k in sorted({0, 1, 2, sc["fault"]["i"] // 2} & set(range(sc["fault"]["i"]))):
             f = dict(sc["fault"], i=k)
             if f["k"] == "write":
                 f["sent"] = 0
@@ -605,10 +615,12 @@ def run(chk):
         "Spec/Blocks.lean as a reading of the MCNP manual's block rules (message block, title, three blocks, blank line delimiters, nothing read after the terminator)",
         "harness tools/props/c15.py and tools/vlib/faultfs.py (real file system in a scratch directory; faults injected by patching open/os.open/os.replace and the object's bound method)",
     ]
+    _t("start")
     leanio.prove(chk, "MontePyVerif.Props.C15", THEOREMS, NAMESPACE)
     drv = leanio.Driver(chk, "drv_c15")
     if not drv.ok:
         return
+    _t("prove + driver build")
 
     rng = chk.rng("problems")
     specs = []
@@ -672,8 +684,14 @@ def run(chk):
     }
     chk.exhaustive = {"fault points (every format call, every write call, open, close, replace, warn) of the problems_with_every_fault_point, for (file, overwrite=True) and (absent, overwrite=False)": True}
 
-    # ---- real code
-    obs_all = pmap(run_impl, items, workers=8, chunksize=16)
+    # ---- real code, and the oracle on its observation (both in the workers)
+    global _DRV, _REFS
+    _DRV, _REFS = drv, refs
+    _t("reference pass and scenario generation")
+    both = pmap(_impl_and_judge, items, workers=8, chunksize=16)
+    _t("real code + oracle")
+    obs_all = [b[0] for b in both]
+    sig_all = [b[1] for b in both]
     # ---- model, one batch per problem
     by_problem = {}
     for i, (it, obs) in enumerate(zip(items, obs_all)):
@@ -692,7 +710,8 @@ def run(chk):
         for i, res in zip(idxs, a["results"]):
             model_all[i] = canon_model(res)
 
-    reported_sigs = set()
+    _t("model")
+    reported = {}
     for i, (it, obs) in enumerate(zip(items, obs_all)):
         r = refs[chash(it["spec"])]
         sc = it["scenario"]
@@ -705,28 +724,25 @@ def run(chk):
         chk.count("source:" + ("fixture" if "fixture" in it["spec"] else "generated" if "text" in it["spec"] else "from-scratch") + ("+edits" if it["spec"].get("edits") else ""))
         if r["render"] is not None and sc["fault"]["k"] == "none" and obs["result"] is None and obs["nwrites"] != len(r["render"]):
             chk.count("note:write-calls-differ-from-model")
-        sig = judge(drv, it, obs, r["counts"])
+        sig = sig_all[i]
         if sig is not None:
             key = canon(sig)
+            if key in reported:
+                chk.violation(sig, _what(sig), reported[key])  # same signature: counted, not minimised again
+                continue
             # confirm in this process, then minimise (a case that does not reproduce is only counted)
             obs2 = run_impl(it)
-            sig2 = judge(drv, it, obs2, r["counts"])
-            if sig2 != sig:
+            if judge(drv, it, obs2, r["counts"]) != sig:
                 chk.count("flaky:oracle")
-            else:
-                if key not in reported_sigs or len(reported_sigs) < 12:
+                continue
 
-                    def fails(cand, sig=sig):
-                        rr = reference(cand["spec"])
-                        rr["render"] = None
-                        o = run_impl(cand)
-                        return judge(drv, cand, o, rr["counts"]) == sig
+            def fails(cand, sig=sig):
+                rr = reference(cand["spec"])
+                return judge(drv, cand, run_impl(cand), rr["counts"]) == sig
 
-                    small = shrink_item(drv, it, fails) if key not in reported_sigs else it
-                    reported_sigs.add(key)
-                else:
-                    small = it
-                chk.violation(sig, _what(sig), {"spec": small["spec"], "scenario": small["scenario"], "impl": run_impl(small)})
+            small = shrink_item(drv, it, fails)
+            reported[key] = {"spec": small["spec"], "scenario": small["scenario"], "impl": _clip_obs(run_impl(small))}
+            chk.violation(sig, _what(sig), reported[key])
             continue  # the destination is already corrupt: nothing more is compared for this case
         chk.traces_validated += 1
         a, b = canon_impl(obs), model_all[i]
@@ -756,6 +772,29 @@ def run(chk):
                 {"impl": _clip(a2), "model": _clip(b2)},
                 {"spec": small["spec"], "scenario": small["scenario"]},
             )
+    _t("compare, confirm, shrink")
+
+
+_T = [None]
+
+
+def _t(what):
+    """phase times on stderr when C15_DEBUG is set"""
+    import sys
+    import time
+
+    now = time.time()
+    if os.environ.get("C15_DEBUG") and _T[0] is not None:
+        sys.stderr.write(f"[C15] {what}: {now - _T[0]:.1f}s\n")
+    _T[0] = now
+
+
+def _clip_obs(obs):
+    obs = json.loads(json.dumps(obs))
+    a = obs.get("after", {})
+    if isinstance(a.get("text"), str) and len(a["text"]) > 3000:
+        a["text"] = a["text"][:3000] + f"… ({len(a['text'])} bytes)"
+    return obs
 
 
 def _clip(x):
@@ -764,6 +803,15 @@ def _clip(x):
     if isinstance(d.get("text"), str) and len(d["text"]) > 1500:
         d["text"] = d["text"][:1500] + f"… ({len(d['text'])} bytes)"
     return x
+
+
+_DRV = None
+_REFS = None
+
+
+def _impl_and_judge(item):
+    obs = run_impl(item)
+    return obs, judge(_DRV, item, obs, _REFS[chash(item["spec"])]["counts"])
 
 
 def _reference_safe(spec):
@@ -776,7 +824,7 @@ def _reference_safe(spec):
 
 
 def replay(chk, payload):
-    case = payload.get("case")
+    case = payload.get("case") or payload  # a replay written by the check, or a corpus file
     if payload.get("verdict") == "no-failing-input-found":
         case = payload["no_longer_checks"][0]["case"]
     if case is None or "spec" not in case:
